@@ -7,4 +7,4 @@ mods = []
 for p in props.PROPS.values():
     for m in list(p['modules']) + list(p.get('srcgen', {}).values()):
         if m not in mods: mods.append(m)
-print(' '.join(['driver'] + mods))
+print(' '.join(['driver'] + mods + ['SlacProps.SourceSpec']))
